@@ -34,7 +34,9 @@ func cmdValue(v ssa.Value) bool {
 	if _, isC := stripConv(v).(*ssa.Const); isC {
 		return false
 	}
-	return originsAll(v, func(o Origin) bool { return o.Kind == "zero" || isCallOrigin(o, ".GetCommand") || o.Kind == "param" && o.Val.Name() == "cmd" })
+	return originsAll(v, func(o Origin) bool {
+		return o.Kind == "zero" || isCallOrigin(o, ".GetCommand") || o.Kind == "param" && o.Val.Name() == "cmd"
+	})
 }
 
 // hasCtxFlag: v is the comma-ok flag of ctx.Value(gcpKey).(*gcpContext).
@@ -248,8 +250,12 @@ func checkC01(c *Ctx, w *World) {
 		nret++
 		construct := fmt.Sprintf("getReadySubConnRef return#%d", i+1)
 		reach := gcs.Reach(r)
-		foundTrue, _ := allOrigins(r.Results[1], func(o Origin) bool { return o.Kind == "const" && o.Val.(*ssa.Const).Value != nil && o.Val.(*ssa.Const).Value.String() == "true" })
-		foundFalse, _ := allOrigins(r.Results[1], func(o Origin) bool { return o.Kind == "const" && o.Val.(*ssa.Const).Value != nil && o.Val.(*ssa.Const).Value.String() == "false" })
+		foundTrue, _ := allOrigins(r.Results[1], func(o Origin) bool {
+			return o.Kind == "const" && o.Val.(*ssa.Const).Value != nil && o.Val.(*ssa.Const).Value.String() == "true"
+		})
+		foundFalse, _ := allOrigins(r.Results[1], func(o Origin) bool {
+			return o.Kind == "const" && o.Val.(*ssa.Const).Value != nil && o.Val.(*ssa.Const).Value.String() == "false"
+		})
 		v, onlyNil, ok := slotOrigin(r.Results[0])
 		switch {
 		case !ok || (!foundTrue && !foundFalse):
@@ -422,7 +428,10 @@ func (pl *pool) checkRetire(rule string, want func(field string) bool) {
 				if rng == nil || !isLoadOf(rng.X, field) {
 					continue
 				}
-				isV := func(v ssa.Value) bool { e, ok := stripConv(v).(*ssa.Extract); return ok && e.Tuple == nx && e.Index == 2 }
+				isV := func(v ssa.Value) bool {
+					e, ok := stripConv(v).(*ssa.Extract)
+					return ok && e.Tuple == nx && e.Index == 2
+				}
 				rcs := newCondSpace(pl.uscs, recOf(eqAtom("isOld", isV, isOld)), "isOld")
 				if imp, _ := rcs.Implies(rcs.Reach(a.Instr), rcs.Atom("isOld")); imp && rcs.Seen("isOld") {
 					// and every entry with value old is handled: the loop body reaches this update whenever value == old
